@@ -21,12 +21,8 @@ Proof.
 Qed.
 
 (* ------------------------------------------------------------------ the table is a function *)
-Definition names {A} (t : list (bytes * A)) : list bytes := map fst t.
-Fixpoint nodupb (l : list bytes) : bool :=
-  match l with
-  | [] => true
-  | x :: r => negb (existsb (bytes_eqb x) r) && nodupb r
-  end.
+
+
 Lemma nodupb_NoDup l : nodupb l = true -> NoDup l.
 Proof.
   induction l as [|x r IH]; cbn; intros H; constructor.
@@ -78,13 +74,7 @@ Proof. apply lookup_unique, nodupb_NoDup, grammar_names_distinct. Qed.
 Local Opaque grammar.
 
 (* the grammar read as a relation: "some row named like the frame's first element yields r" *)
-Definition parses (f : option (list relem)) (r : presult) : Prop :=
-  match f with
-  | Some (EBulk n :: args) =>
-      (exists rl, In (ustr n, rl) grammar /\ r = run_rule rl args)
-      \/ (~ In (ustr n) (names grammar) /\ r = unknown_cmd (ustr n))
-  | _ => r = PErr E_FORMAT
-  end.
+
 Lemma parses_parse_frame f : parses f (parse_frame f).
 Proof.
   destruct f as [[|[n| |] args]|]; cbn; try reflexivity.
@@ -111,8 +101,8 @@ Proof.
 Qed.
 
 (* ------------------------------------------------------------------ letter case *)
-Definition ascii (b : bytes) : Prop := Forall (fun x => (x < 128)%N) b.
-Definition case_variant (a b : bytes) : Prop := Forall2 (fun x y => up1 x = up1 y) a b.
+
+
 
 Lemma width_ascii x : (x < 128)%N -> width x = 1%nat.
 Proof. intros H. unfold width. apply N.ltb_lt in H. now rewrite H. Qed.
@@ -181,34 +171,18 @@ Lemma lua_commands_in_grammar :
 Proof. vm_compute. reflexivity. Qed.
 
 (* both entry paths run the same executor on the same parsed command *)
-Section Script.
+Section ScriptThm.
   Variable state : Type.
   Variable exec : state -> cmd -> state * resp.
-  Definition conv (r : resp) : resp := lua_to_resp (resp_to_lua r).
-  Definition err_reply (t : bytes) : resp := RError (sanitize t).
-  Definition direct_call (s : state) (parts : list bytes) : state * resp :=
-    match parse_cmd parts with
-    | POk c => exec s c
-    | PErr t => (s, err_reply t)
-    | PPanic => (s, err_reply [])
-    end.
-  (* EVAL "return redis.pcall(...)": translate, execute, convert to Lua, convert the script's
-     return value back *)
-  Definition script_call (s : state) (parts : list bytes) : state * resp :=
-    match lua_parse parts with
-    | POk c => let '(s', r) := exec s c in (s', conv r)
-    | PErr t => (s, conv (RError t))
-    | PPanic => (s, err_reply [])
-    end.
   Theorem script_call_eq_direct s n rest :
     lua_supported (ustr n) = true ->
     (forall t, parse_cmd (n :: rest) = PErr t -> lossy t = t) ->
     parse_cmd (n :: rest) <> PPanic ->
-    script_call s (n :: rest) =
-      (fst (direct_call s (n :: rest)),
+    script_call state exec s (n :: rest) =
+      (fst (direct_call state exec s (n :: rest)),
        match parse_cmd (n :: rest) with
-       | POk _ => conv (snd (direct_call s (n :: rest)))
-       | _ => snd (direct_call s (n :: rest))
+       | POk _ => conv (snd (direct_call state exec s (n :: rest)))
+       | _ => snd (direct_call state exec s (n :: rest))
        end).
   Proof.
     intros H HU HP. unfold script_call, direct_call. rewrite (lua_parse_eq_parse _ _ H).
@@ -217,7 +191,7 @@ Section Script.
     - cbn. unfold conv, err_reply. cbn. rewrite (HU t eq_refl), bytes_eqb_refl. reflexivity.
     - contradiction.
   Qed.
-End Script.
+End ScriptThm.
 
 (* ------------------------------------------------------------------ RESP <-> Lua values *)
 Section RespInd.
@@ -244,22 +218,8 @@ Section RespInd.
     end.
 End RespInd.
 
-Definition text_ok (s : bytes) : bool := bytes_eqb (lossy s) s && bytes_eqb (sanitize s) s.
-(* [a]: is a nil bulk allowed (inside arrays) *)
-Fixpoint inner_ok_with (a : bool) (r : resp) : bool :=
-  match r with
-  | RSimple_ s | RError s => text_ok s
-  | RInt _ => true
-  | RBulk (Some _) => true
-  | RBulk None => a
-  | RArr None => false
-  | RArr (Some l) =>
-      (fix all (l : list resp) : bool :=
-         match l with [] => true | x :: t => inner_ok_with a x && all t end) l
-  end.
-Definition conv_ok (r : resp) : bool :=
-  match r with RBulk None => true | _ => inner_ok_with false r end.
-Definition conv_ok_redis (r : resp) : bool := inner_ok_with true r.
+
+
 
 Definition go_arr : list lval -> list resp :=
   fix go (l : list lval) : list resp :=
@@ -700,3 +660,771 @@ Section Casing.
       rewrite (parse_sub _ _ _ _ _ HS HI). now apply run_simple.
   Qed.
 End Casing.
+
+(* ------------------------------------------------------------------ commands with their own parser *)
+Local Open Scope string_scope.
+Local Open Scope list_scope.
+Local Open Scope bool_scope.
+Notation cased k := (map (fun t : bool * bytes => if fst t then k (snd t) else snd t)).
+Definition custom_ok (k : bytes -> bytes) (tag : string) (c : custom) : Prop :=
+  forall a, c_canon c a = true ->
+            exists ts, c_unparse c a = Some ts /\ parse_cmd (cased k ts) = POk (Cmd tag a).
+
+Definition cond_set (b : bool) (n : nat) (v : cval) (st : list cval) : list cval :=
+  if b then setn n v st else st.
+
+Ltac split_and :=
+  repeat match goal with
+         | H : (_ && _)%bool = true |- _ => apply andb_true_iff in H as [? ?]
+         end.
+Ltac ext := repeat (rewrite ext_unext by assumption).
+
+Section Customs.
+  Variable k : bytes -> bytes.
+  Hypothesis Hk : forall w, ustr (k w) = ustr w.
+
+  Lemma parse_row n r args :
+    lookup n grammar = Some r -> ustr n = n ->
+    parse_frame (Some (EBulk (k n) :: args)) = run_rule r args.
+  Proof. intros H1 H2. unfold parse_frame. now rewrite Hk, H2, H1. Qed.
+
+  (* one optional piece of an option list *)
+  Lemma oloop_opt_flag tbl unk st kw n v rest :
+    lookup (tx kw) tbl = Some (AFlag n) -> ustr (tx kw) = tx kw -> is_flag v = true ->
+    oloop tbl unk st (map EBulk (cased k (opt_flag kw v)) ++ rest)
+    = oloop tbl unk (cond_set (flag_of v) n (VFlag true) st) rest.
+  Proof.
+    intros HL HU HF. destruct v as [| | | | |[|]| | |]; try discriminate; cbn [opt_flag flag_of cond_set map app fst snd].
+    - cbn [oloop kw_of]. now rewrite Hk, HU, HL.
+    - reflexivity.
+  Qed.
+  Lemma oloop_opt_val tbl unk st kw n kd miss v rest :
+    lookup (tx kw) tbl = Some (AVal n kd miss) -> ustr (tx kw) = tx kw -> wf_opt kd v = true ->
+    oloop tbl unk st (map EBulk (cased k (opt_val kw kd v)) ++ rest)
+    = oloop tbl unk (cond_set (is_some v) n v st) rest.
+  Proof.
+    intros HL HU HF. destruct v as [| | | | | |[x|]| |]; try discriminate; cbn [opt_val is_some cond_set map app fst snd].
+    - cbn [oloop kw_of]. rewrite Hk, HU, HL. cbn [wf_opt] in HF. now rewrite (ext_unext _ _ HF).
+    - reflexivity.
+  Qed.
+  Lemma oloop_opt_flag_end tbl unk st kw n v :
+    lookup (tx kw) tbl = Some (AFlag n) -> ustr (tx kw) = tx kw -> is_flag v = true ->
+    oloop tbl unk st (map EBulk (cased k (opt_flag kw v)))
+    = Ok (cond_set (flag_of v) n (VFlag true) st).
+  Proof.
+    intros. rewrite <- (app_nil_r (map EBulk _)). erewrite oloop_opt_flag by eassumption. reflexivity.
+  Qed.
+  Lemma oloop_opt_val_end tbl unk st kw n kd miss v :
+    lookup (tx kw) tbl = Some (AVal n kd miss) -> ustr (tx kw) = tx kw -> wf_opt kd v = true ->
+    oloop tbl unk st (map EBulk (cased k (opt_val kw kd v)))
+    = Ok (cond_set (is_some v) n v st).
+  Proof.
+    intros. rewrite <- (app_nil_r (map EBulk _)). erewrite oloop_opt_val by eassumption. reflexivity.
+  Qed.
+
+  Ltac dflag v := destruct v as [| | | | |[|]| | |]; try discriminate.
+  Ltac dopt v := destruct v as [| | | | | |[?|]| |]; try discriminate.
+  Ltac side := reflexivity || assumption.
+  Ltac kill_neg :=
+    repeat match goal with
+           | H : negb _ = true |- _ =>
+               cbn [negb andb orb flag_of is_some] in H; try discriminate H; clear H
+           end.
+
+  Local Transparent grammar.
+
+  Ltac start := intros a HC; cbn [c_canon c_unparse] in *.
+  Ltac open_frame :=
+    eexists; split; [reflexivity|]; unfold parse_cmd; cbn [map fst snd kwd ua arg app]; rewrite ?map_app.
+  Ltac enter NAME ROW :=
+    rewrite (parse_row (tx NAME) ROW) by side;
+    unfold run_rule; cbn [arity_ok List.length Nat.leb andb negb].
+
+  Local Transparent grammar.
+
+  Lemma ping_ok : custom_ok k "Ping" {| c_canon := c_ping; c_unparse := u_ping |}.
+  Proof.
+    start. destruct a as [|o [|? ?]]; try discriminate; dopt o; cbn [c_ping] in HC; try discriminate; open_frame.
+    - enter "PING" (RCustom 0 None [] p_ping). unfold p_ping. ext. reflexivity.
+    - enter "PING" (RCustom 0 None [] p_ping). reflexivity.
+  Qed.
+
+  Lemma auth_ok : custom_ok k "Auth" {| c_canon := c_auth; c_unparse := u_auth |}.
+  Proof.
+    start. destruct a as [|o [|p [|? ?]]]; try discriminate; dopt o; cbn [c_auth] in HC; try discriminate; split_and; open_frame.
+    - enter "AUTH" (RCustom 1 (Some 2%nat) (tx "AUTH requires 1 or 2 arguments") p_auth).
+      unfold p_auth. ext. reflexivity.
+    - enter "AUTH" (RCustom 1 (Some 2%nat) (tx "AUTH requires 1 or 2 arguments") p_auth).
+      unfold p_auth. ext. reflexivity.
+  Qed.
+
+  Lemma set_ok : custom_ok k "Set" {| c_canon := c_set; c_unparse := u_set |}.
+  Proof.
+    start.
+    destruct a as [|k0 [|v [|ex [|px [|exat [|pxat [|nx [|xx [|g [|kt [|]]]]]]]]]]]; try discriminate.
+    cbn [c_set] in HC. split_and. open_frame.
+    enter "SET" (RCustom 2 None (req "SET" "at least 2 arguments") p_set).
+    unfold p_set. ext.
+    rewrite (oloop_opt_flag set_kw _ _ "NX" 6) by side.
+    rewrite (oloop_opt_flag set_kw _ _ "XX" 7) by side.
+    rewrite (oloop_opt_flag set_kw _ _ "GET" 8) by side.
+    erewrite (oloop_opt_val set_kw _ _ "EX" 2 KInt) by side.
+    erewrite (oloop_opt_val set_kw _ _ "PX" 3 KInt) by side.
+    erewrite (oloop_opt_val set_kw _ _ "EXAT" 4 KInt) by side.
+    erewrite (oloop_opt_val set_kw _ _ "PXAT" 5 KInt) by side.
+    rewrite (oloop_opt_flag_end set_kw _ _ "KEEPTTL" 9) by side.
+    dflag nx; dflag xx; dflag g; dflag kt; dopt ex; dopt px; dopt exat; dopt pxat; kill_neg; vm_compute; reflexivity.
+  Qed.
+
+  Lemma getex_ok : custom_ok k "GetEx" {| c_canon := c_getex; c_unparse := u_getex |}.
+  Proof.
+    start. destruct a as [|k0 [|ex [|px [|exat [|pxat [|ps [|]]]]]]]; try discriminate.
+    cbn [c_getex] in HC. split_and. open_frame.
+    enter "GETEX" (RCustom 1 None (wrong_args "getex") p_getex).
+    unfold p_getex. ext.
+    erewrite (oloop_opt_val getex_kw _ _ "EX" 1 KInt) by side.
+    erewrite (oloop_opt_val getex_kw _ _ "PX" 2 KInt) by side.
+    erewrite (oloop_opt_val getex_kw _ _ "EXAT" 3 KInt) by side.
+    erewrite (oloop_opt_val getex_kw _ _ "PXAT" 4 KInt) by side.
+    rewrite (oloop_opt_flag_end getex_kw _ _ "PERSIST" 5) by side.
+    dflag ps; dopt ex; dopt px; dopt exat; dopt pxat;
+      match goal with H : Nat.leb _ _ = true |- _ => cbn in H; try discriminate H end;
+      vm_compute; reflexivity.
+  Qed.
+
+  Lemma expire_ok name tag :
+    lookup (tx name) grammar = Some (RCustom 2 None (req name "at least 2 arguments") (p_expire tag)) ->
+    ustr (tx name) = tx name ->
+    custom_ok k tag {| c_canon := c_expire; c_unparse := u_expire name |}.
+  Proof.
+    intros HR HN. start. destruct a as [|k0 [|n [|nx [|xx [|gt [|lt [|]]]]]]]; try discriminate.
+    cbn [c_expire] in HC. split_and. open_frame.
+    rewrite (parse_row _ _ _ HR HN). unfold run_rule. cbn [arity_ok List.length Nat.leb andb negb].
+    unfold p_expire. ext.
+    rewrite (oloop_opt_flag expire_kw _ _ "NX" 2) by side.
+    rewrite (oloop_opt_flag expire_kw _ _ "XX" 3) by side.
+    rewrite (oloop_opt_flag expire_kw _ _ "GT" 4) by side.
+    rewrite (oloop_opt_flag_end expire_kw _ _ "LT" 5) by side.
+    dflag nx; dflag xx; dflag gt; dflag lt; kill_neg; reflexivity.
+  Qed.
+
+  Lemma kw_cased w : ustr (tx w) = tx w -> kw_of (EBulk (k (tx w))) = Ok (tx w).
+  Proof. intros H. unfold kw_of. now rewrite Hk, H. Qed.
+
+  Lemma oloop_limit tbl unk st w n miss o c off cnt rest :
+    lookup (ustr w) tbl = Some (ALimit n miss) ->
+    extract KInt (EBulk o) = Ok off -> extract KUsz (EBulk c) = Ok cnt ->
+    oloop tbl unk st (EBulk w :: EBulk o :: EBulk c :: rest)
+    = oloop tbl unk (setn n (VOpt (Some (VP off cnt))) st) rest.
+  Proof. intros H1 H2 H3. cbn [oloop kw_of]. now rewrite H1, H2, H3. Qed.
+
+  Lemma zrangebyscore_ok :
+    custom_ok k "ZRangeByScore" {| c_canon := c_zrangebyscore; c_unparse := u_zrangebyscore |}.
+  Proof.
+    start. destruct a as [|k0 [|mn [|mx [|ws [|lim [|? ?]]]]]]; try discriminate;
+    destruct lim as [| | | | | |[[| | | | | | | |off cnt]|]| |];
+      cbn [c_zrangebyscore] in HC; try discriminate; split_and; open_frame;
+      enter "ZRANGEBYSCORE" (RCustom 3 None (req "ZRANGEBYSCORE" "at least 3 arguments") p_zrangebyscore);
+      unfold p_zrangebyscore; ext.
+    - rewrite (oloop_opt_flag zrbs_kw _ _ "WITHSCORES" 3) by side.
+      cbn [map fst snd kwd ua].
+      erewrite (oloop_limit zrbs_kw _ _ (k (tx "LIMIT")) 4);
+        [|rewrite Hk; reflexivity|apply ext_unext; assumption|apply ext_unext; assumption].
+      dflag ws; reflexivity.
+    - rewrite (oloop_opt_flag_end zrbs_kw _ _ "WITHSCORES" 3) by side.
+      dflag ws; reflexivity.
+  Qed.
+
+  Lemma scan_ok : custom_ok k "Scan" {| c_canon := c_scan; c_unparse := u_scan |}.
+  Proof.
+    start. destruct a as [|c [|pat [|cnt [|? ?]]]]; try discriminate.
+    cbn [c_scan] in HC. split_and. open_frame.
+    enter "SCAN" (RCustom 1 None (req "SCAN" "at least 1 argument") p_scan).
+    unfold p_scan. ext.
+    erewrite (oloop_opt_val (scan_kw 1) _ _ "MATCH" 1 KStr) by side.
+    erewrite (oloop_opt_val_end (scan_kw 1) _ _ "COUNT" 2 KUsz) by side.
+    dopt pat; dopt cnt; reflexivity.
+  Qed.
+
+  Lemma kscan_ok name tag :
+    lookup (tx name) grammar = Some (RCustom 2 None (req name "at least 2 arguments") (p_kscan tag name)) ->
+    ustr (tx name) = tx name ->
+    custom_ok k tag {| c_canon := c_kscan; c_unparse := u_kscan name |}.
+  Proof.
+    intros HR HN. start. destruct a as [|k0 [|c [|pat [|cnt [|? ?]]]]]; try discriminate.
+    cbn [c_kscan] in HC. split_and. open_frame.
+    rewrite (parse_row _ _ _ HR HN). unfold run_rule. cbn [arity_ok List.length Nat.leb andb negb].
+    unfold p_kscan. ext.
+    erewrite (oloop_opt_val (scan_kw 2) _ _ "MATCH" 2 KStr) by side.
+    erewrite (oloop_opt_val_end (scan_kw 2) _ _ "COUNT" 3 KUsz) by side.
+    dopt pat; dopt cnt; reflexivity.
+  Qed.
+
+  Lemma sort_ok : custom_ok k "Sort" {| c_canon := c_sort; c_unparse := u_sort |}.
+  Proof.
+    start. destruct a as [|k0 [|st [|? ?]]]; try discriminate.
+    cbn [c_sort] in HC. split_and. dopt st; open_frame;
+      enter "SORT" (RCustom 1 None (wrong_args "sort") p_sort); unfold p_sort; ext.
+    - cbn [opt_val map oloop fst snd app]. rewrite (kw_cased "STORE") by reflexivity.
+      cbn [lookup bytes_eqb]. replace (lookup (tx "STORE") [(tx "STORE", AStore 1)]) with (Some (AStore 1)) by reflexivity.
+      cbn [wf_opt] in *. ext. reflexivity.
+    - reflexivity.
+  Qed.
+
+  Lemma zrange_ok name tag :
+    lookup (tx name) grammar = Some (RCustom 3 (Some 4%nat) (req name "3 or 4 arguments") (p_zrange tag)) ->
+    ustr (tx name) = tx name ->
+    custom_ok k tag {| c_canon := c_zrange; c_unparse := u_zrange name |}.
+  Proof.
+    intros HR HN. start. destruct a as [|k0 [|x [|y [|ws [|? ?]]]]]; try discriminate.
+    cbn [c_zrange] in HC. split_and. dflag ws; open_frame;
+      rewrite (parse_row _ _ _ HR HN); unfold run_rule; cbn [opt_flag map app arity_ok List.length Nat.leb andb negb fst snd];
+      unfold p_zrange; ext.
+    - rewrite (kw_cased "WITHSCORES") by reflexivity. reflexivity.
+    - reflexivity.
+  Qed.
+
+  Lemma spop_ok : custom_ok k "SPop" {| c_canon := c_spop; c_unparse := u_spop |}.
+  Proof.
+    start. destruct a as [|k0 [|o [|? ?]]]; try discriminate; dopt o; cbn [c_spop] in HC; try discriminate;
+      split_and; open_frame; enter "SPOP" (RCustom 1 (Some 2%nat) (req "SPOP" "1 or 2 arguments") p_spop);
+      unfold p_spop; ext; reflexivity.
+  Qed.
+
+  Lemma dir_cased f : is_dir f = true -> kw_of (EBulk (k f)) = Ok f.
+  Proof.
+    unfold is_dir. intros H. apply orb_true_iff in H as [H|H]; apply bytes_eqb_eq in H; subst f;
+      unfold kw_of; rewrite Hk; reflexivity.
+  Qed.
+  Lemma lmove_ok : custom_ok k "LMove" {| c_canon := c_lmove; c_unparse := u_lmove |}.
+  Proof.
+    start. destruct a as [|s [|d [|f [|t [|? ?]]]]]; try discriminate;
+    destruct f as [f| | | | | | | |]; try discriminate; destruct t as [t| | | | | | | |]; try discriminate.
+    cbn [c_lmove] in HC. split_and. open_frame.
+    enter "LMOVE" (RCustom 4 (Some 4%nat) (req "LMOVE" "4 arguments") p_lmove).
+    unfold p_lmove. ext. rewrite !dir_cased by assumption.
+    unfold is_dir in *.
+    repeat match goal with H : (bytes_eqb ?a ?b || bytes_eqb ?a ?c) = true |- _ => rewrite H; clear H end.
+    reflexivity.
+  Qed.
+
+  Lemma run_custom lo hi e f args :
+    arity_ok (RCustom lo hi e f) (List.length args) = true -> run_rule (RCustom lo hi e f) args = f args.
+  Proof. intros H. unfold run_rule. now rewrite H. Qed.
+
+  (* ZADD *)
+  Lemma zadd_flags_opt st kw n v rest :
+    zadd_flag (tx kw) = Some n -> ustr (tx kw) = tx kw -> is_flag v = true ->
+    zadd_flags st (map EBulk (cased k (opt_flag kw v)) ++ rest)
+    = zadd_flags (cond_set (flag_of v) n (VFlag true) st) rest.
+  Proof.
+    intros HL HU HF. destruct v as [| | | | |[|]| | |]; try discriminate; cbn [opt_flag flag_of cond_set map app fst snd].
+    - cbn [zadd_flags kw_of]. now rewrite Hk, HU, HL.
+    - reflexivity.
+  Qed.
+  Lemma pair_toks_tokens k1 k2 ps :
+    map EBulk (cased k (flat_map (pair_toks k1 k2) ps)) = map EBulk (flat_map (pair_tokens k1 k2) ps).
+  Proof.
+    induction ps as [|p ps IH]; [reflexivity|]. cbn [flat_map]. rewrite !map_app, IH. f_equal.
+    destruct p; reflexivity.
+  Qed.
+  Lemma zadd_ok : custom_ok k "ZAdd" {| c_canon := c_zadd; c_unparse := u_zadd |}.
+  Proof.
+    start. destruct a as [|k0 [|ps [|nx [|xx [|gt [|lt [|ch [|? ?]]]]]]]]; try discriminate;
+    destruct ps as [| | | | | | |ps|]; try discriminate.
+    cbn [c_zadd] in HC. split_and.
+    destruct ps as [|[| | | | | | | |[| | |t| | | | |] m] ps]; try discriminate.
+    open_frame.
+    rewrite (parse_row (tx "ZADD") (RCustom 3 None (tx "ZADD requires key and score-member pairs") p_zadd)) by side.
+    rewrite run_custom.
+    2:{ cbn [arity_ok andb]. rewrite Bool.andb_true_r. apply Nat.leb_le. cbn [List.length].
+        rewrite !app_length, !map_length. cbn [flat_map pair_toks app List.length]. lia. }
+    - unfold p_zadd. ext.
+      rewrite (zadd_flags_opt _ "NX" 2) by side.
+      rewrite (zadd_flags_opt _ "XX" 3) by side.
+      rewrite (zadd_flags_opt _ "GT" 4) by side.
+      rewrite (zadd_flags_opt _ "LT" 5) by side.
+      rewrite (zadd_flags_opt _ "CH" 6) by side.
+      rewrite pair_toks_tokens.
+      match goal with H : forallb (wf_pair KFloat KSds) _ = true |- _ =>
+        destruct (extract_pairs_unext KFloat KSds _ H) as [EP LP] end.
+      cbn [flat_map pair_tokens app map zadd_flags kw_of].
+      match goal with H : match zadd_flag (ustr t) with _ => _ end = true |- _ =>
+        destruct (zadd_flag (ustr t)) eqn:EZ; [discriminate H|] end.
+      cbn [unext_k unext]. rewrite EZ. cbn [fst snd].
+      cbn [flat_map pair_tokens app map] in EP, LP. cbn [unext_k unext] in EP, LP.
+      match goal with |- context [Nat.even (List.length ?l)] =>
+        assert (HL : List.length l = (2 * List.length (VP (VF t) m :: ps))%nat)
+          by (cbn [List.length] in *; rewrite map_length; exact LP);
+        rewrite HL end.
+      rewrite Nat.even_mul. cbn [Nat.even orb negb List.length Nat.mul Nat.add Nat.eqb].
+      rewrite EP. dflag nx; dflag xx; dflag gt; dflag lt; dflag ch; reflexivity.
+  Qed.
+
+  (* EVAL / EVALSHA *)
+  Lemma cased_ua K l : map EBulk (cased k (map (ua K) l)) = map EBulk (map (unext_k K) l).
+  Proof. rewrite !map_map. apply map_ext. reflexivity. Qed.
+  Lemma firstn_app_len {A} (l1 l2 : list A) n : List.length l1 = n -> firstn n (l1 ++ l2) = l1.
+  Proof. intros <-. rewrite firstn_app, Nat.sub_diag, firstn_all. cbn. apply app_nil_r. Qed.
+  Lemma skipn_app_len {A} (l1 l2 : list A) n : List.length l1 = n -> skipn n (l1 ++ l2) = l2.
+  Proof. intros <-. rewrite skipn_app, Nat.sub_diag, skipn_all. reflexivity. Qed.
+  Lemma eval_ok name tag :
+    lookup (tx name) grammar = Some (RCustom 2 None (req name "at least 2 arguments") (p_eval tag name)) ->
+    ustr (tx name) = tx name ->
+    custom_ok k tag {| c_canon := c_eval; c_unparse := u_eval name |}.
+  Proof.
+    intros HR HN. start. destruct a as [|s [|ks [|vs [|? ?]]]]; try discriminate;
+    destruct ks as [| | | | | | |ks|]; try discriminate; destruct vs as [| | | | | | |vs|]; try discriminate.
+    cbn [c_eval] in HC. split_and. open_frame.
+    rewrite (parse_row _ _ _ HR HN). unfold run_rule. cbn [arity_ok List.length Nat.leb andb negb].
+    unfold p_eval. ext. rewrite !cased_ua.
+    match goal with H : (Z.of_nat _ <=? I64_MAX)%Z = true |- _ => apply Z.leb_le in H; rename H into HB end.
+    rewrite ext_int_itoa.
+    2:{ unfold in_range. apply andb_true_iff. split; apply Z.leb_le; [unfold I64_MIN|]; lia. }
+    destruct (Z.ltb_spec (Z.of_nat (List.length ks)) 0); [lia|].
+    rewrite app_length, !map_length.
+    destruct (Z.ltb_spec (Z.of_nat (List.length ks + List.length vs)) (Z.of_nat (List.length ks))); [lia|].
+    rewrite Nat2Z.id.
+    rewrite firstn_app_len, skipn_app_len by (now rewrite !map_length).
+    rewrite !extract_list_unext by assumption. reflexivity.
+  Qed.
+
+  (* subcommands *)
+  Lemma parse_sub_row c tbl miss unk n r args :
+    lookup c grammar = Some (RCustom 1 None miss (sub_run tbl unk)) -> ustr c = c ->
+    lookup n tbl = Some r -> ustr n = n ->
+    parse_frame (Some (EBulk (k c) :: EBulk (k n) :: args)) = run_rule r args.
+  Proof.
+    intros H1 H2 H3 H4. rewrite (parse_row _ _ _ H1 H2).
+    unfold run_rule at 1. cbn [arity_ok List.length Nat.leb andb negb].
+    unfold sub_run, kw_of. now rewrite Hk, H4, H3.
+  Qed.
+  Ltac enter_acl SUB ROW :=
+    rewrite (parse_sub_row (tx "ACL") acl_tbl (tx "ACL requires a subcommand") acl_unknown (tx SUB) ROW) by side;
+    unfold run_rule; cbn [arity_ok List.length Nat.leb andb negb].
+
+  Lemma aclcat_ok : custom_ok k "AclCat" {| c_canon := c_optional KStr; c_unparse := u_aclcat |}.
+  Proof.
+    start. destruct a as [|o [|? ?]]; try discriminate; dopt o; cbn [c_optional] in HC; try discriminate; open_frame;
+      enter_acl "CAT" (RCustom 0 None [] p_acl_cat); unfold p_acl_cat; ext; reflexivity.
+  Qed.
+  Lemma aclgenpass_ok : custom_ok k "AclGenPass" {| c_canon := c_optional KU32Str; c_unparse := u_aclgenpass |}.
+  Proof.
+    start. destruct a as [|o [|? ?]]; try discriminate; dopt o; cbn [c_optional] in HC; try discriminate; open_frame;
+      enter_acl "GENPASS" (RCustom 0 None [] p_acl_genpass); unfold p_acl_genpass; ext; reflexivity.
+  Qed.
+
+  Lemma map_up1_digits ds : all_digits ds = true -> map up1 ds = ds.
+  Proof.
+    induction ds as [|c t IH]; cbn [all_digits forallb map]; intros H; [reflexivity|].
+    apply andb_true_iff in H as [Hc Ht]. apply is_digit_range in Hc. rewrite (IH Ht). f_equal.
+    unfold up1. destruct (N.leb_spec 97 c); [lia|reflexivity].
+  Qed.
+  Lemma nonneg_itoa_digits z : (0 <= z)%Z -> all_digits (itoa z) = true /\ itoa z <> [].
+  Proof.
+    destruct z; cbn [itoa]; intros H; try lia.
+    - split; [reflexivity|discriminate].
+    - split; [apply ntoa_digits|apply ntoa_nonempty].
+  Qed.
+  Lemma acllog_ok : custom_ok k "AclLog" {| c_canon := c_optional KUszStr; c_unparse := u_acllog |}.
+  Proof.
+    start. destruct a as [|o [|? ?]]; try discriminate; dopt o; cbn [c_optional] in HC; try discriminate; open_frame;
+      enter_acl "LOG" (RCustom 0 (Some 1%nat) (tx "ERR wrong number of arguments for 'acl|log' command") p_acl_log);
+      unfold p_acl_log; [|reflexivity].
+    destruct c; try discriminate. cbn [wf_val] in HC. cbn [unext_k unext kw_of].
+    pose proof (in_range_spec _ _ _ HC) as Hr.
+    destruct (nonneg_itoa_digits z ltac:(lia)) as [Hd Hne].
+    rewrite (ustr_ascii _ (all_digits_ascii _ Hd)), (map_up1_digits _ Hd).
+    destruct (itoa z) as [|d ds] eqn:E; [contradiction|].
+    assert (HR : bytes_eqb (d :: ds) (tx "RESET") = false).
+    { cbn [all_digits forallb] in Hd. apply andb_true_iff in Hd as [Hd _]. apply is_digit_range in Hd.
+      cbn. destruct (N.eqb_spec d 82); [lia|reflexivity]. }
+    rewrite HR, <- E. unfold parse_u64. rewrite <- (lossy_itoa z), parse_unsigned_itoa by exact HC. reflexivity.
+  Qed.
+
+  Lemma const_kw w : ustr (tx w) = tx w -> ustr (k (tx w)) = tx w.
+  Proof. intros H. now rewrite Hk. Qed.
+  Lemma acllogreset_ok : custom_ok k "AclLogReset" {| c_canon := c_const; c_unparse := u_const ["ACL"; "LOG"; "RESET"] |}.
+  Proof.
+    start. destruct a; try discriminate. open_frame.
+    enter_acl "LOG" (RCustom 0 (Some 1%nat) (tx "ERR wrong number of arguments for 'acl|log' command") p_acl_log).
+    unfold p_acl_log, kw_of. rewrite (const_kw "RESET") by reflexivity. reflexivity.
+  Qed.
+  Lemma commandcommand_ok : custom_ok k "CommandCommand" {| c_canon := c_const; c_unparse := u_const ["COMMAND"] |}.
+  Proof.
+    start. destruct a; try discriminate. open_frame.
+    enter "COMMAND" (RCustom 0 None [] p_command). reflexivity.
+  Qed.
+  Lemma commandcount_ok : custom_ok k "CommandCount" {| c_canon := c_const; c_unparse := u_const ["COMMAND"; "COUNT"] |}.
+  Proof.
+    start. destruct a; try discriminate. open_frame.
+    enter "COMMAND" (RCustom 0 None [] p_command).
+    unfold p_command, kw_of. rewrite (const_kw "COUNT") by reflexivity. reflexivity.
+  Qed.
+
+  Lemma debugset_ok : custom_ok k "DebugSet" {| c_canon := c_debugset; c_unparse := u_debugset |}.
+  Proof.
+    start. destruct a as [|sub [|v [|? ?]]]; try discriminate; destruct sub as [sub| | | | | | | |]; try discriminate.
+    cbn [c_debugset] in HC. split_and. open_frame.
+    enter "DEBUG" (RCustom 1 None (wrong_args "debug") (sub_run debug_tbl debug_unknown)).
+    unfold sub_run, kw_of. rewrite Hk.
+    match goal with H : bytes_eqb (ustr sub) sub = true |- _ => apply bytes_eqb_eq in H; rewrite H end.
+    match goal with H : none_lookup sub debug_tbl = true |- _ =>
+      unfold none_lookup in H; destruct (lookup sub debug_tbl); [discriminate H|] end.
+    unfold debug_unknown. ext. reflexivity.
+  Qed.
+  Lemma unknown_ok : custom_ok k "Unknown" {| c_canon := c_unknown; c_unparse := u_unknown |}.
+  Proof.
+    start. destruct a as [|n [|? ?]]; try discriminate; destruct n as [n| | | | | | | |]; try discriminate.
+    cbn [c_unknown] in HC. split_and. open_frame.
+    unfold parse_frame. rewrite Hk.
+    match goal with H : bytes_eqb (ustr n) n = true |- _ => apply bytes_eqb_eq in H; rewrite H end.
+    match goal with H : none_lookup n grammar = true |- _ =>
+      unfold none_lookup in H; destruct (lookup n grammar); [discriminate H|] end.
+    reflexivity.
+  Qed.
+
+  Lemma customs_ok : Forall (fun tc => custom_ok k (fst tc) (snd tc)) customs.
+  Proof.
+    unfold customs.
+    repeat (constructor;
+            [cbn [fst snd];
+             first [ apply ping_ok | apply auth_ok | apply set_ok | apply getex_ok
+                   | apply expire_ok; reflexivity | apply zrangebyscore_ok | apply scan_ok
+                   | apply kscan_ok; reflexivity | apply sort_ok | apply zadd_ok
+                   | apply zrange_ok; reflexivity | apply spop_ok | apply lmove_ok
+                   | apply eval_ok; reflexivity | apply aclcat_ok | apply aclgenpass_ok
+                   | apply acllog_ok | apply acllogreset_ok | apply commandcommand_ok
+                   | apply commandcount_ok | apply debugset_ok | apply unknown_ok ]
+            |]).
+    constructor.
+  Qed.
+  Local Opaque grammar.
+
+  Lemma find_custom_In tag l : forall c, find_custom tag l = Some c -> In (tag, c) l.
+  Proof.
+    induction l as [|[t c0] l IH]; cbn [find_custom]; intros c H; [discriminate|].
+    destruct (String.eqb_spec tag t) as [->|Hne].
+    - injection H as <-. now left.
+    - right. auto.
+  Qed.
+
+  Theorem parse_unparse_k c :
+    canonical c = true -> exists ps, unparse_k k c = Some ps /\ parse_cmd ps = POk c.
+  Proof.
+    destruct c as [tag a]. intros HC.
+    destruct (find_tag tag simple_index) as [[[path pre] tl]|] eqn:HF.
+    - assert (HU : exists ps, unparse_k k (Cmd tag a) = Some ps).
+      { unfold unparse_k, unparse_tokens. rewrite HF. eexists. reflexivity. }
+      destruct HU as [ps HU]. exists ps. split; [exact HU|].
+      eapply parse_unparse_simple; eauto.
+    - unfold canonical in HC. rewrite HF in HC. unfold canonical_custom in HC.
+      destruct (find_custom tag customs) as [cu|] eqn:HCu; [|discriminate].
+      pose proof (find_custom_In _ _ _ HCu) as HIn. pose proof customs_ok as HA. rewrite Forall_forall in HA.
+      specialize (HA _ HIn). cbn [fst snd] in HA. destruct (HA a HC) as (ts & HU & HP).
+      exists (cased k ts). split; [|exact HP].
+      unfold unparse_k, unparse_tokens. rewrite HF. unfold unparse_custom. rewrite HCu, HU. reflexivity.
+  Qed.
+End Customs.
+
+(* an instance of the casing hypothesis: write every ASCII keyword in lower case *)
+
+Lemma lower_kw_ok w : ustr (lower_kw w) = ustr w.
+Proof.
+  unfold lower_kw. destruct (forallb (fun x => (x <? 128)%N) w) eqn:E; [|reflexivity].
+  assert (Ha : ascii w).
+  { rewrite forallb_forall in E. apply Forall_forall. intros x Hx. apply N.ltb_lt. auto. }
+  symmetry. apply ustr_case_variant; [exact Ha|].
+  clear E. induction Ha as [|x r Hx Hr IH]; constructor; [|exact IH].
+  unfold up1, low1.
+  destruct ((65 <=? x) && (x <=? 90))%N eqn:E1.
+  - apply andb_true_iff in E1 as [A B]. apply N.leb_le in A, B.
+    destruct (N.leb_spec 97 x); [lia|]. cbn [andb].
+    destruct (N.leb_spec 97 (x + 32)); [|lia]. destruct (N.leb_spec (x + 32) 122); [|lia]. cbn [andb]. lia.
+  - reflexivity.
+Qed.
+Theorem parse_unparse c :
+  canonical c = true -> exists ps, unparse c = Some ps /\ parse_cmd ps = POk c.
+Proof. apply (parse_unparse_k (fun w => w)). reflexivity. Qed.
+
+(* ------------------------------------------------------------------ no frame panics the parser *)
+Definition safe (r : rule) : Prop := forall args, run_rule r args <> PPanic.
+
+Lemma ext_int_no_pn e : ext_int e <> Pn.
+Proof. destruct e as [b|z|]; cbn; try discriminate. destruct (parse_i64 (lossy b)); discriminate. Qed.
+Lemma ext_u64_no_pn e : ext_u64 e <> Pn.
+Proof. destruct e as [b|z|]; cbn; try discriminate. destruct (parse_u64 (lossy b)); discriminate. Qed.
+Lemma bind_no_pn {A B} (r : res A) (f : A -> res B) :
+  r <> Pn -> (forall a, f a <> Pn) ->
+  (match r with Ok x => f x | Er t => Er t | Pn => Pn end) <> Pn.
+Proof. intros H1 H2. destruct r; [apply H2|discriminate|contradiction]. Qed.
+Lemma remap_no_pn {A} t (r : res A) : r <> Pn -> remap t r <> Pn.
+Proof. destruct r; [discriminate|discriminate|contradiction]. Qed.
+Lemma extract_no_pn k e : extract k e <> Pn.
+Proof.
+  pose proof (ext_int_no_pn e) as HI. pose proof (ext_u64_no_pn e) as HU.
+  destruct k; cbn [extract].
+  - destruct e; discriminate.
+  - destruct e; discriminate.
+  - destruct e; discriminate.
+  - apply bind_no_pn; [exact HI|discriminate].
+  - apply bind_no_pn; [exact HI|discriminate].
+  - apply bind_no_pn; [exact HU|discriminate].
+  - apply bind_no_pn; [apply remap_no_pn; exact HU|discriminate].
+  - apply bind_no_pn; [apply remap_no_pn; exact HI|]. intros a. destruct ((a <? 0)%Z || (1 <? a)%Z); discriminate.
+  - apply bind_no_pn; [exact HI|]. intros a. destruct (a <? 0)%Z; discriminate.
+  - destruct e; try discriminate. destruct (float_class (lossy b)); discriminate.
+  - destruct e; try discriminate. destruct (float_class (lossy b)) as [[| |]|]; discriminate.
+  - apply bind_no_pn; [exact HU|]. intros a. destruct (15 <? a)%Z; discriminate.
+  - destruct e; try discriminate. destruct (parse_u64 (lossy b)); discriminate.
+  - destruct e; try discriminate. destruct (parse_u32 (lossy b)); discriminate.
+Qed.
+Lemma kw_of_no_pn e : kw_of e <> Pn.
+Proof. destruct e; discriminate. Qed.
+Lemma extract_list_no_pn k es : extract_list k es <> Pn.
+Proof.
+  induction es as [|e t IH]; cbn [extract_list]; [discriminate|].
+  pose proof (extract_no_pn k e). destruct (extract k e); [| discriminate | contradiction].
+  destruct (extract_list k t); [discriminate | discriminate | contradiction].
+Qed.
+Lemma extract_pairs_no_pn k1 k2 n : forall es, (List.length es <= n)%nat -> extract_pairs k1 k2 es <> Pn.
+Proof.
+  induction n as [|n IH]; intros [|a [|b t]] H; cbn [extract_pairs]; try discriminate; cbn [List.length] in H; try lia.
+  pose proof (extract_no_pn k1 a). destruct (extract k1 a); [| discriminate | contradiction].
+  pose proof (extract_no_pn k2 b). destruct (extract k2 b); [| discriminate | contradiction].
+  assert (HT : extract_pairs k1 k2 t <> Pn) by (apply IH; lia).
+  destruct (extract_pairs k1 k2 t); [discriminate | discriminate | contradiction].
+Qed.
+Lemma extract_pre_no_pn pre : forall es, extract_pre pre es <> Pn.
+Proof.
+  induction pre as [|k pre IH]; intros [|e es]; cbn [extract_pre]; try discriminate.
+  pose proof (extract_no_pn k e). destruct (extract k e); [| discriminate | contradiction].
+  specialize (IH es). destruct (extract_pre pre es); [discriminate | discriminate | contradiction].
+Qed.
+Lemma to_presult_safe tag r : r <> Pn -> to_presult tag r <> PPanic.
+Proof. destruct r; [discriminate | discriminate | contradiction]. Qed.
+
+Lemma simple_safe tag pre tl e : safe (RSimple tag pre tl e).
+Proof.
+  intros args. unfold run_rule. destruct (negb _); [discriminate|].
+  apply to_presult_safe.
+  pose proof (extract_pre_no_pn pre args). destruct (extract_pre pre args) as [pr| |]; [| discriminate | contradiction].
+  destruct tl; try discriminate.
+  - pose proof (extract_list_no_pn k (snd pr)). destruct (extract_list k (snd pr)); [discriminate|discriminate|contradiction].
+  - pose proof (extract_list_no_pn k (snd pr)). destruct (extract_list k (snd pr)); [discriminate|discriminate|contradiction].
+  - pose proof (extract_pairs_no_pn k1 k2 _ (snd pr) (le_n _)). destruct (extract_pairs k1 k2 (snd pr)); [discriminate|discriminate|contradiction].
+Qed.
+
+(* option loops never yield Pn when no valued option is declared without a missing-text *)
+Definition tbl_total (tbl : list (bytes * oact)) : Prop :=
+  forall kw n k, lookup kw tbl <> Some (AVal n k None).
+Lemma oloop_no_pn tbl unk : tbl_total tbl ->
+  forall n args st, (List.length args <= n)%nat -> oloop tbl unk st args <> Pn.
+Proof.
+  intros HT. induction n as [|n IH]; intros [|a rest] st H; cbn [oloop]; try discriminate; cbn [List.length] in H; try lia.
+  pose proof (kw_of_no_pn a). destruct (kw_of a) as [kw| |]; [| discriminate | contradiction].
+  destruct (lookup kw tbl) as [[m|m kd miss|m miss|m|pre post]|] eqn:EL.
+  - apply IH. lia.
+  - destruct rest as [|v rest'].
+    + destruct miss; [discriminate|]. exfalso. exact (HT _ _ _ EL).
+    + pose proof (extract_no_pn kd v). destruct (extract kd v); [| discriminate | contradiction].
+      apply IH. cbn [List.length] in H. lia.
+  - destruct rest as [|o [|c rest']]; try discriminate.
+    pose proof (extract_no_pn KInt o). destruct (extract KInt o); [| discriminate | contradiction].
+    pose proof (extract_no_pn KUsz c). destruct (extract KUsz c); [| discriminate | contradiction].
+    apply IH. cbn [List.length] in H. lia.
+  - destruct rest as [|v rest']; [discriminate|].
+    pose proof (extract_no_pn KStr v). destruct (extract KStr v); [| discriminate | contradiction].
+    apply IH. cbn [List.length] in H. lia.
+  - discriminate.
+  - destruct unk; try discriminate. apply IH. lia.
+Qed.
+Lemma total_by_check tbl :
+  forallb (fun na => match snd na with AVal _ _ None => false | _ => true end) tbl = true -> tbl_total tbl.
+Proof.
+  intros H kw n k HL. apply lookup_In in HL. rewrite forallb_forall in H. specialize (H _ HL). discriminate.
+Qed.
+
+(* one step of "the bind of something that is not Pn" *)
+Ltac step :=
+  match goal with
+  | |- context [match extract ?k ?e with _ => _ end] =>
+      let H := fresh in pose proof (extract_no_pn k e) as H; destruct (extract k e); [| | contradiction]
+  | |- context [match ext_int ?e with _ => _ end] =>
+      let H := fresh in pose proof (ext_int_no_pn e) as H; destruct (ext_int e); [| | contradiction]
+  | |- context [match kw_of ?e with _ => _ end] =>
+      let H := fresh in pose proof (kw_of_no_pn e) as H; destruct (kw_of e); [| | contradiction]
+  | |- context [match extract_list ?k ?e with _ => _ end] =>
+      let H := fresh in pose proof (extract_list_no_pn k e) as H; destruct (extract_list k e); [| | contradiction]
+  | |- context [match extract_pairs ?a ?b ?e with _ => _ end] =>
+      let H := fresh in pose proof (extract_pairs_no_pn a b _ e (le_n _)) as H; destruct (extract_pairs a b e); [| | contradiction]
+  | |- context [match oloop ?t ?u ?s ?a with _ => _ end] =>
+      let H := fresh in
+      assert (H : oloop t u s a <> Pn) by (apply (oloop_no_pn t u (total_by_check t eq_refl) _ a s (le_n _)));
+      destruct (oloop t u s a); [| | contradiction]
+  | |- context [if ?b then _ else _] => destruct b
+  end.
+Ltac steps := repeat (try discriminate; step); try discriminate;
+  try match goal with |- oloop ?t ?u ?s ?a <> Pn =>
+        apply (oloop_no_pn t u (total_by_check t eq_refl) _ a s (le_n _)) end.
+
+Definition custom_safe lo hi e (f : list relem -> presult) : Prop :=
+  forall args, arity_ok (RCustom lo hi e f) (List.length args) = true -> f args <> PPanic.
+Lemma custom_is_safe lo hi e f : custom_safe lo hi e f -> safe (RCustom lo hi e f).
+Proof.
+  intros H args. unfold run_rule. destruct (arity_ok _ _) eqn:E; cbn [negb]; [apply H; exact E|discriminate].
+Qed.
+Ltac shape args :=
+  cbn [arity_ok List.length Nat.leb andb] in *; try discriminate.
+
+Lemma zadd_flags_no_pn : forall args st, zadd_flags st args <> Pn.
+Proof.
+  induction args as [|a rest IH]; intros st; cbn [zadd_flags]; [discriminate|].
+  pose proof (kw_of_no_pn a). destruct (kw_of a); [| discriminate | contradiction].
+  destruct (zadd_flag a0); [apply IH|discriminate].
+Qed.
+
+Lemma p_ping_safe : custom_safe 0 None [] p_ping.
+Proof. intros [|m ?] _; cbn [p_ping]; [discriminate|]. apply to_presult_safe. steps. Qed.
+Lemma p_auth_safe : custom_safe 1 (Some 2%nat) (tx "AUTH requires 1 or 2 arguments") p_auth.
+Proof.
+  intros [|a [|b [|c ?]]] H; shape H; cbn [p_auth]; apply to_presult_safe; steps.
+Qed.
+Lemma p_set_safe : custom_safe 2 None (req "SET" "at least 2 arguments") p_set.
+Proof.
+  intros [|a [|b rest]] H; shape H. unfold p_set. steps.
+Qed.
+Lemma set_with_safe name n : custom_safe 3 (Some 3%nat) (req name "3 arguments") (set_with n).
+Proof.
+  intros [|a [|b [|c [|d ?]]]] H; shape H. cbn [set_with]. apply to_presult_safe. steps.
+Qed.
+Lemma p_getex_safe : custom_safe 1 None (wrong_args "getex") p_getex.
+Proof. intros [|a rest] H; shape H. unfold p_getex. apply to_presult_safe. steps. Qed.
+Lemma p_expire_safe name tag : custom_safe 2 None (req name "at least 2 arguments") (p_expire tag).
+Proof. intros [|a [|b rest]] H; shape H. unfold p_expire. apply to_presult_safe. steps. Qed.
+Lemma p_zrbs_safe : custom_safe 3 None (req "ZRANGEBYSCORE" "at least 3 arguments") p_zrangebyscore.
+Proof. intros [|a [|b [|c rest]]] H; shape H. unfold p_zrangebyscore. apply to_presult_safe. steps. Qed.
+Lemma p_scan_safe : custom_safe 1 None (req "SCAN" "at least 1 argument") p_scan.
+Proof. intros [|a rest] H; shape H. unfold p_scan. apply to_presult_safe. steps. Qed.
+Lemma p_kscan_safe tag name : custom_safe 2 None (req name "at least 2 arguments") (p_kscan tag name).
+Proof. intros [|a [|b rest]] H; shape H. unfold p_kscan. apply to_presult_safe. steps. Qed.
+Lemma p_sort_safe : custom_safe 1 None (wrong_args "sort") p_sort.
+Proof. intros [|a rest] H; shape H. unfold p_sort. apply to_presult_safe. steps. Qed.
+Lemma p_zadd_safe : custom_safe 3 None (tx "ZADD requires key and score-member pairs") p_zadd.
+Proof.
+  intros [|a rest] H; shape H. unfold p_zadd. apply to_presult_safe. step; [|discriminate].
+  pose proof (zadd_flags_no_pn rest [a0; VL []; F; F; F; F; F]) as HZ.
+  destruct (zadd_flags _ rest); [| discriminate | contradiction]. steps.
+Qed.
+Lemma p_zrange_safe name tag : custom_safe 3 (Some 4%nat) (req name "3 or 4 arguments") (p_zrange tag).
+Proof.
+  intros [|a [|b [|c rest]]] H; shape H. unfold p_zrange. apply to_presult_safe. steps. destruct rest; steps.
+Qed.
+Lemma p_spop_safe : custom_safe 1 (Some 2%nat) (req "SPOP" "1 or 2 arguments") p_spop.
+Proof. intros [|a rest] H; shape H. unfold p_spop. apply to_presult_safe. steps. destruct rest; steps. Qed.
+Lemma p_lmove_safe : custom_safe 4 (Some 4%nat) (req "LMOVE" "4 arguments") p_lmove.
+Proof.
+  intros [|a [|b [|c [|d [|e ?]]]]] H; shape H. cbn [p_lmove]. apply to_presult_safe. steps.
+Qed.
+Lemma p_eval_safe tag name : custom_safe 2 None (req name "at least 2 arguments") (p_eval tag name).
+Proof.
+  intros [|a [|b rest]] H; shape H. unfold p_eval, eval_negative. apply to_presult_safe. steps.
+Qed.
+Lemma p_command_safe : custom_safe 0 None [] p_command.
+Proof. intros [|a rest] _; cbn [p_command]; [discriminate|]. steps. Qed.
+Lemma p_acl_cat_safe : custom_safe 0 None [] p_acl_cat.
+Proof. intros [|a rest] _; cbn [p_acl_cat]; [discriminate|]. apply to_presult_safe. steps. Qed.
+Lemma p_acl_genpass_safe : custom_safe 0 None [] p_acl_genpass.
+Proof. intros [|a rest] _; cbn [p_acl_genpass]; [discriminate|]. apply to_presult_safe. steps. Qed.
+Lemma p_acl_log_safe : custom_safe 0 (Some 1%nat) (tx "ERR wrong number of arguments for 'acl|log' command") p_acl_log.
+Proof.
+  intros [|a [|b ?]] H; shape H; cbn [p_acl_log]; try discriminate. steps. destruct (parse_u64 a0); discriminate.
+Qed.
+Lemma stub_safe name : safe (stub name).
+Proof. intros args. unfold stub, run_rule. destruct (negb _); discriminate. Qed.
+
+Lemma sub_run_safe tbl unk miss :
+  Forall (fun nr => safe (snd nr)) tbl -> (forall s r, unk s r <> PPanic) ->
+  custom_safe 1 None miss (sub_run tbl unk).
+Proof.
+  intros HT HU [|a rest] H; shape H. unfold sub_run. steps.
+  destruct (lookup a0 tbl) eqn:EL; [|apply HU].
+  apply lookup_In in EL. rewrite Forall_forall in HT. exact (HT _ EL rest).
+Qed.
+
+Ltac custom_row :=
+  apply custom_is_safe;
+  first [ apply p_ping_safe | apply p_auth_safe | apply p_set_safe | apply set_with_safe
+        | apply p_getex_safe | apply p_expire_safe | apply p_zrbs_safe | apply p_scan_safe
+        | apply p_kscan_safe | apply p_sort_safe | apply p_zadd_safe | apply p_zrange_safe
+        | apply p_spop_safe | apply p_lmove_safe | apply p_eval_safe | apply p_command_safe
+        | apply p_acl_cat_safe | apply p_acl_genpass_safe | apply p_acl_log_safe ].
+Ltac rows := repeat (constructor; [cbn [snd]; first [apply simple_safe | apply stub_safe | custom_row]|]); try constructor.
+
+Lemma config_safe : Forall (fun nr => safe (snd nr)) config_tbl.
+Proof. unfold config_tbl. rows. Qed.
+Lemma acl_safe : Forall (fun nr => safe (snd nr)) acl_tbl.
+Proof. unfold acl_tbl, acl_stubs. cbn [app]. rows. Qed.
+Lemma script_safe : Forall (fun nr => safe (snd nr)) script_tbl.
+Proof. unfold script_tbl. rows. Qed.
+Lemma function_safe : Forall (fun nr => safe (snd nr)) function_tbl.
+Proof. unfold function_tbl. rows. Qed.
+Lemma client_safe : Forall (fun nr => safe (snd nr)) client_tbl.
+Proof. unfold client_tbl. rows. Qed.
+Lemma object_safe : Forall (fun nr => safe (snd nr)) object_tbl.
+Proof. unfold object_tbl. rows. Qed.
+Lemma debug_safe : Forall (fun nr => safe (snd nr)) debug_tbl.
+Proof. unfold debug_tbl. rows. Qed.
+Lemma debug_unknown_safe s r : debug_unknown s r <> PPanic.
+Proof. destruct r; cbn [debug_unknown]; [discriminate|]. apply to_presult_safe. steps. Qed.
+
+Local Transparent grammar.
+Lemma grammar_safe : Forall (fun nr => safe (snd nr)) grammar.
+Proof.
+  unfold grammar.
+  repeat (constructor;
+    [cbn [snd];
+     first [ apply simple_safe | custom_row
+           | apply custom_is_safe; apply sub_run_safe;
+             [ first [apply config_safe | apply acl_safe | apply script_safe | apply function_safe
+                     | apply client_safe | apply object_safe | apply debug_safe]
+             | first [apply debug_unknown_safe | intros; discriminate] ] ]
+    |]).
+  constructor.
+Qed.
+Local Opaque grammar.
+
+Theorem no_panic f : parse_frame f <> PPanic.
+Proof.
+  destruct f as [[|[n| |] args]|]; unfold parse_frame; try discriminate.
+  destruct (lookup (ustr n) grammar) eqn:E; [|discriminate].
+  apply lookup_In in E. pose proof grammar_safe as HS. rewrite Forall_forall in HS. exact (HS _ E args).
+Qed.
+Corollary lua_no_panic parts : lua_parse parts <> PPanic.
+Proof.
+  destruct parts as [|n rest]; cbn [lua_parse]; [discriminate|].
+  destruct (lua_supported (ustr n)); [apply no_panic|discriminate].
+Qed.
+
+(* EVAL's key count: a negative count is an error, not a panic (before b9ac17d: PPanic) *)
+Theorem eval_negative_numkeys name s z rest :
+  (name = tx "EVAL" \/ name = tx "EVALSHA") -> (z < 0)%Z -> in_range I64_MIN I64_MAX z = true ->
+  exists c, parse_cmd (name :: s :: itoa z :: rest) = PErr c /\ c = tx "ERR Number of keys can't be negative".
+Proof.
+  intros Hn Hz Hr. eexists. split; [|reflexivity].
+  unfold parse_cmd. cbn [map].
+  destruct Hn as [-> | ->].
+  - rewrite (parse_row (fun w => w) (fun w => eq_refl) (tx "EVAL") (RCustom 2 None (req "EVAL" "at least 2 arguments") (p_eval "Eval" "EVAL"))) by reflexivity.
+    unfold run_rule. cbn [arity_ok List.length Nat.leb andb negb]. unfold p_eval.
+    cbn [extract]. rewrite ext_int_itoa by exact Hr. destruct (Z.ltb_spec z 0); [|lia]. reflexivity.
+  - rewrite (parse_row (fun w => w) (fun w => eq_refl) (tx "EVALSHA") (RCustom 2 None (req "EVALSHA" "at least 2 arguments") (p_eval "EvalSha" "EVALSHA"))) by reflexivity.
+    unfold run_rule. cbn [arity_ok List.length Nat.leb andb negb]. unfold p_eval.
+    cbn [extract]. rewrite ext_int_itoa by exact Hr. destruct (Z.ltb_spec z 0); [|lia]. reflexivity.
+Qed.
+
+(* the redis.call subset is a proper subset of what a client can send *)
+Lemma lua_subset_witness :
+  let parts := [tx "SUBSTR"; tx "j"; tx "2"; tx "-1"] in
+  parse_cmd parts = POk (Cmd "GetRange" [VS (tx "j"); VI 2; VI (-1)])
+  /\ lua_parse parts = PErr (tx "ERR Unknown Redis command 'SUBSTR' called from Lua").
+Proof. split; vm_compute; reflexivity. Qed.
